@@ -129,9 +129,11 @@ def run_adupdates(ctx, idx0):
         for combo in itertools.product(gkinds, repeat=k):
             if k == 3 and not ctx.thorough and hash(combo) % 5:
                 continue
-            for inner_kind in ('scalar', 'per-point-first'):
+            for inner_kind in ('scalar', 'per-point-first', 'shared-functional-object'):
                 if inner_kind == 'per-point-first' and combo[0] not in ('L1.translated', 'L2sq.translated'):
                     continue   # element-valued steps only for the factories that document them (Appendix B)
+                if inner_kind == 'shared-functional-object' and (k < 2 or len(set(combo)) != 1):
+                    continue   # one functional *object* at several positions of g, each with its own operator and inner step
                 idx += 1
                 if not ctx.mine(idx):
                     continue
@@ -139,13 +141,17 @@ def run_adupdates(ctx, idx0):
                 n = int(rng.integers(2, 6))
                 X = odl.rn(n)
                 Ls, gl = [], []
+                m_shared = int(rng.integers(2, 4))
                 for gk in combo:
-                    mi = int(rng.integers(1, 4))
+                    mi = int(rng.integers(1, 4)) if inner_kind != 'shared-functional-object' else m_shared
                     Yi = odl.rn(mi)
                     Ls.append(odl.MatrixOperator(rng.normal(size=(mi, n)), domain=X, range=Yi))
                     bi = Yi.element(rng.normal(size=mi))
                     gl.append({'L1.translated': S.L1Norm(Yi).translated(bi), 'L2sq.translated': S.L2NormSquared(Yi).translated(bi),
                                'L2.translated': S.L2Norm(Yi).translated(bi), 'box': S.IndicatorBox(Yi, -1, 1), 'Huber': S.Huber(Yi, 0.2)}[gk])
+                if inner_kind == 'shared-functional-object':
+                    gl = [gl[0]] * len(gl)
+                    Ls = [odl.MatrixOperator(L.matrix * sc_, domain=X, range=L.range) for L, sc_ in zip(Ls, (1.0, 3.0, 0.4))]
                 stepsize = float(rng.uniform(0.5, 2))
                 inner = [0.9 / np.linalg.norm(L.matrix, 2) ** 2 for L in Ls]
                 if inner_kind == 'per-point-first':
@@ -401,6 +407,32 @@ def run_resume(ctx, idx0):
                     x0p = X.element(np.abs(np.asarray(x0)) + 0.1)
                     split_check(ctx, 'mlem', kind, lambda x, k: S.mlem(Ap, x, bp, k), x0p, niter, n1, tol=1e-9,
                                 callback_run=lambda x, k, cb: S.mlem(Ap, x, bp, k, callback=cb))
+                    # user-supplied sensitivities: a float, or one image per operator (the same objects handed to every call -
+                    # they are the caller's data and must come back unchanged); ordered subsets sharing one image
+                    sens = X.element(rng.uniform(0.5, 2.0, size=X.shape))
+                    sens_arr = rng.uniform(0.5, 2.0, size=X.shape)
+                    A2p = odl.MatrixOperator(np.abs(rng.normal(size=A.matrix.shape)), domain=X, range=Y)
+                    b2p = Y.element(np.abs(rng.normal(size=Y.shape)) + 0.1)
+                    for sk, runner, args in (
+                            ('sensitivities=float', lambda x, k, cb=None: S.mlem(Ap, x, bp, k, sensitivities=1.7, callback=cb), []),
+                            ('sensitivities=[element]', lambda x, k, cb=None: S.mlem(Ap, x, bp, k, sensitivities=[sens], callback=cb), [sens]),
+                            ('sensitivities=[ndarray]', lambda x, k, cb=None: S.mlem(Ap, x, bp, k, sensitivities=[sens_arr], callback=cb), [sens_arr]),
+                            ('osmlem;shared-sensitivity-image', lambda x, k, cb=None: S.osmlem([Ap, A2p], x, [bp, b2p], k, sensitivities=[sens, sens], callback=cb), [sens, bp, b2p])):
+                        keep = [np.array(np.asarray(a_), copy=True) for a_ in args]
+                        split_check(ctx, 'mlem', kind + ';' + sk, lambda x, k: runner(x, k), x0p, niter, n1, tol=1e-9)
+                        if any(not np.array_equal(np.asarray(a_), k_) for a_, k_ in zip(args, keep)):
+                            ctx.violation('mlem', kind + ';' + sk, 'caller-argument-modified')
+                        if sk.startswith('sensitivities=['):
+                            # the documented iteration x <- x / s * A^T(g / A x), written out
+                            ctx.ev('reference-equality')
+                            sv = np.asarray(args[0])
+                            xr = np.asarray(x0p).copy()
+                            for _k in range(niter):
+                                xr = xr / sv * (Ap.matrix.T @ (np.asarray(bp) / np.maximum(Ap.matrix @ xr, 1e-8)))
+                            xl = x0p.copy()
+                            runner(xl, niter)
+                            if not np.allclose(np.asarray(xl), xr, rtol=1e-9, atol=1e-12):
+                                ctx.violation('mlem', kind + ';' + sk, 'final-iterate-mismatch', against='documented iteration in NumPy')
                 # PDHG with state passed back
                 for theta in (1.0, 0.5, 0.0):
                     gn = list(Pb.gs())[(fi + rep) % len(Pb.gs())]
